@@ -226,7 +226,9 @@ func c17Main(args []string) error {
 					mine := dir + "/private"
 					prog = []string{probe, nonce, "say:3:" + marker, "fdsfd:3"}
 					for k := 0; k < 60; k++ {
-						prog = append(prog, "append:"+mine+":x")
+						// (a path pointer the tracer cannot read must be presented as the empty path, never as
+						// whatever another run's trap left behind)
+						prog = append(prog, "append:"+mine+":x", "badopen:1")
 					}
 					prog = append(prog, fmt.Sprintf("exit:%d", want))
 					h := &pathWatch{own: dir, base: tmp}
